@@ -36,6 +36,7 @@ type Contract struct {
 	Trusted   bool // contract is assumed, body not verified (externals, or internal functions marked so)
 	NoReturn  bool // never returns normally
 	NoSafety  bool // do not generate safe.* obligations (function verified for functional clauses only)
+	Axioms    []Clause // trusted global facts about a pure external function (quantified with gforall)
 	Lemmas    []Clause // assert-style lemmas checked at function entry (pure facts over params)
 	Uses      []string // pure helper function contracts to instantiate (unused for now)
 	File      string
@@ -90,7 +91,7 @@ func NewContractSet() *ContractSet {
 	return &ContractSet{ByFunc: map[string]*Contract{}, Specs: map[string]*SpecFn{}, Defaults: map[string]string{}}
 }
 
-var clauseHead = regexp.MustCompile(`^(requires|ensures|lemma)(\[[A-Z0-9, ]+\])?\s+(.*)$`)
+var clauseHead = regexp.MustCompile(`^(requires|ensures|lemma|axiom)(\[[A-Z0-9, ]+\])?\s+(.*)$`)
 var loopHead = regexp.MustCompile(`^loop\s+(\d+)\s+(invariant|decreases)(\[[A-Z0-9, ]+\])?\s+(.*)$`)
 var specHead = regexp.MustCompile(`^specfn\s+(\w+)\s*\((.*)\)\s*(\S.*)$`)
 
@@ -201,6 +202,8 @@ func (cs *ContractSet) ParseFile(path, pkgPath string, ext bool) error {
 			return fmt.Errorf("%s:%d: clause outside func: %s", path, ln, line)
 		case strings.HasPrefix(line, "prop "):
 			cur.Props = append(cur.Props, strings.Fields(line[5:])...)
+		case strings.HasPrefix(line, "uses "):
+			cur.Uses = append(cur.Uses, strings.Fields(line[5:])...)
 		case strings.HasPrefix(line, "params "):
 			cur.Params = strings.Fields(line[7:])
 		case line == "pure":
@@ -293,6 +296,8 @@ func (cs *ContractSet) ParseFile(path, pkgPath string, ext bool) error {
 				cur.Ensures = append(cur.Ensures, cl)
 			case "lemma":
 				cur.Lemmas = append(cur.Lemmas, cl)
+			case "axiom":
+				cur.Axioms = append(cur.Axioms, cl)
 			}
 		default:
 			return fmt.Errorf("%s:%d: cannot parse contract line: %s", path, ln, line)
